@@ -106,7 +106,8 @@ impl ModelGen {
                 2 => bin(BinOp::Mul, v, num(c)),
                 3 => bin(BinOp::Div, v, num(*r.pick(&[2.0, -2.0, 4.0, 0.5, 1.0]))),
                 4 => Exp::UnOp(UnOp::Neg, b(v)),
-                _ => bin(BinOp::Mul, num(c), v),
+                // a coefficient written as an expression of constants (what expanded data compiles to)
+                _ => match r.below(4) { 0 => bin(BinOp::Mul, bin(BinOp::Mul, num(c), num(2.0)), v), 1 => bin(BinOp::Div, v, bin(BinOp::Add, num(1.0), num(1.0))), 2 => bin(BinOp::Mul, v, bin(BinOp::Sub, num(c), num(0.5))), _ => bin(BinOp::Mul, num(c), v) },
             };
             e = Some(match e { None => t, Some(p) => bin(if r.chance(1, 2) { BinOp::Add } else { BinOp::Sub }, p, t) });
         }
